@@ -1154,4 +1154,4 @@ def replay(path, seed):
         print("implementation:", json.dumps(i)[:3000])
         print("oracle:", fails or "accepts", "| known finding observed:", known)
         return 1 if fails else 0
-    return 0
+    return 2   # not a kind of record this function knows how to replay (the driver then re-runs the check)
